@@ -48,7 +48,14 @@ def main():
     except vlib.Infra as e:
         print("INFRA-ERROR property=%s: %s" % (a.prop, e))
         return 2
-    except Exception:
+    except Exception as e:
+        if type(e).__name__ == "DaemonCrash":
+            # the daemon itself panicked on a valid scenario in a place where the family does not handle it specially:
+            # that is behaviour of the code under test
+            rp = vlib.save_replay(ctx, "daemon_crashed", dict(property=a.prop, clause=a.prop + ":daemon-crashed", panic=e.msg, scenario=e.scen))
+            print("VIOLATION property=%s replay=%s" % (a.prop, rp))
+            print("  clause: %s:daemon-crashed   %s" % (a.prop, e.msg[-300:].replace("\n", " | ")))
+            return 1
         traceback.print_exc()
         print("INFRA-ERROR property=%s: internal error in the checker" % a.prop)
         return 2
